@@ -22,7 +22,7 @@ def cases(tier, r):
             if q and n == 3 and r.random() > 0.3:
                 continue
             ps.append({"x": "mask", "via": "A" if (len(ps) % 2) else "D",
-                       "tip": {"k": "coll", "x": [list(s) for s in seq], "present": "tuple" if len(ps) % 3 == 0 else "list"}})
+                       "tip": {"k": "coll", "x": [list(s) for s in seq], "present": ["tuple", "list", "iter", "list", "tuple", "list", "list"][len(ps) % 7]}})
     # all 255 subsets, in ascending and in shuffled order with a repeated member
     for m in range(1, 256):
         members = [n for n in range(1, 9) if m >> (n - 1) & 1]
@@ -30,11 +30,16 @@ def cases(tier, r):
         sh = members + [r.choice(members)]
         r.shuffle(sh)
         ps.append({"x": "mask", "via": "D", "tip": {"k": "coll", "x": [[r.choice(["int", "tip"]), n] for n in sh]}})
+        if m % 5 == 0:
+            # other representations of a collection: a one-shot iterable, a set
+            ps.append({"x": "mask", "via": "A", "tip": {"k": "coll", "x": [[r.choice(["int", "tip"]), n] for n in sh], "present": "iter"}})
+            ps.append({"x": "mask", "via": "D", "tip": {"k": "coll", "x": [["int", n] for n in sh], "present": "set"}})
     # invalid members inside collections
     for b in BAD:
         for g in (GOOD[0], GOOD[12]):
             ps.append({"x": "mask", "via": "A", "tip": {"k": "coll", "x": [g, b]}})
             ps.append({"x": "mask", "via": "D", "tip": {"k": "coll", "x": [b, g, g]}})
+            ps.append({"x": "mask", "via": "D", "tip": {"k": "coll", "x": [g, g, b], "present": "iter"}})
     return ps
 
 
